@@ -68,6 +68,7 @@ def check_csr(ctx, cfg):
     m, bus, built = tree.build_csr_root(cfg)
     regs = csrtarget.regs_from_map(bus.memory_map)
     map_agreement(ctx, bus.memory_map, cfg)
+    csrtarget.range_covers_width(ctx, regs, cfg["dw"], cfg)
     ports = [bus.addr, bus.r_data, bus.r_stb, bus.w_data, bus.w_stb]
     nl = ctx.netlist(m, ports=ports, probes=csrtarget.elem_signals(regs), tie=[bus.r_data])
     ctx.nontrivial = len(regs) >= 2
@@ -84,6 +85,7 @@ def check_wb(ctx, cfg):
     map_agreement(ctx, mm, cfg)
     infos = list(mm.all_resources())
     regs = [i for i in infos if hasattr(i.resource, "element")]
+    csrtarget.range_covers_width(ctx, [{"name": "/".join(map(str, i.path)), "start": i.start, "stop": i.end, "width": i.resource.element.width} for i in regs], cfg["g"], cfg)
     probes = []
     for i in regs:
         e = i.resource.element
@@ -219,6 +221,8 @@ def main(run: Run):
     run_configs(run, __name__, cfgs, cosim_cycles=8)
     from . import patterns_l1
     patterns_l1.add_to(run)
+    from . import validation
+    validation.add_to(run, ["wb_csr_bridge_ctor", "memory_map_setters"])
     return run.finish(
         explanation="End-to-end composition on generated hierarchies: the flattened real design is checked at the root bus against the "
                     "addresses root.memory_map.all_resources() reports (CSR-rooted: generic CSR-target contract with a symbolic root "
